@@ -862,7 +862,10 @@ def setitem(I, o, k, v):
         return
     if isinstance(o, list):
         if isinstance(k, slice):
-            raise Unsupported("list slice assignment")
+            if k.step is None and all(x is None or isinstance(x, int) for x in (k.start, k.stop)):
+                o[k] = list(I.iterate(v))        # concrete bounds: Python's own slice semantics on the heap list
+                return
+            raise Unsupported("list slice assignment with symbolic bounds or a step")
         if is_sym(k):
             k = core.CUR.concretize(_norm_index(I, k, len(o)), what="list index")
         try:
@@ -993,7 +996,7 @@ def method_of(I, o, name):
         if name == "add":
             return Builtin("set.add", lambda I, x: o.add(I, x))
         if name == "union":
-            return Builtin("set.union", lambda I, x: o.union(x))
+            return Builtin("set.union", lambda I, x: o.union(x, I))
         if name == "clear":
             return Builtin("set.clear", lambda I: o.items.clear())
     if isinstance(o, str):
